@@ -13,6 +13,13 @@ Mirrors the locking structure of `DB.Merge` (`merge.go` at /repo HEAD):
 | an error return (`ErrMergeFileIDConflict`, I/O error): no marker, the directory is ignored | `mabort` |
 | `Open` adopting the finished merge: files `< n` are replaced by the merged files | `adopted`: the log a restart replays is `out ++ log.drop n` |
 
+Since the repair "readers take the DB read lock before they consult the index" the per-record
+liveness test is `db.mu.RLock(); pos := db.index.Get(key); db.mu.RUnlock()`: the read can no longer
+fall inside the W section of a writer (in particular not inside an open batch, whose early index
+updates it must not see — batches are not part of this model, see `Model/ConcBatch.lean`).
+`mvisit` is still enabled at ANY time here, i.e. this model admits a superset of the schedules
+of the code; the theorems, proved for all schedules of the larger relation, apply unchanged.
+
 `startInLock = false` is the broken shape in which the boundary is fixed without holding `db.mu`
 (a writer may then be between its append and its index update).
 -/
